@@ -5,6 +5,8 @@ import ast
 
 from engine.cfg import CFG, normalise_compare, atoms
 from engine.model import src, stmt_key, dotted
+from engine import pat
+from rules import roles
 from engine.util import own_nodes, calls_with_nodes, where
 
 RULES = {
@@ -20,7 +22,7 @@ def _commit_nodes(cfg):
 
 
 def run(model, rep, tier):
-    pm = model.func(PM)
+    pm = pat.canon_func(model.func(PM), ["for __rrset in message.answer[__answer_index:]:\n    __name = __rrset.name\n    __rdataset = __rrset\n    ...", "__soa = cast(dns.rdtypes.ANY.SOA.SOA, ...)"])
     cfg = CFG(pm.node, implicit_exc=False)
     # ---------------------------------------------------------------- R-13.1 (a) inside process_message
     commits = _commit_nodes(cfg)
@@ -163,7 +165,7 @@ def run(model, rep, tier):
 
     # ---------------------------------------------------------------- R-13.3
     for qn in ("dns.query._inbound_xfr", "dns.asyncquery._inbound_xfr"):
-        f = model.func(qn)
+        f = pat.canon_func(model.func(qn), roles.INBOUND_XFR)
         c2 = CFG(f.node)
         pcs = [(n, c) for (n, c) in calls_with_nodes(c2) if isinstance(c.func, ast.Attribute) and c.func.attr == "process_message"]
         okk = bool(pcs) and all(any(src(w.context_expr).startswith("dns.xfr.Inbound(") for w in n.withs) for (n, c) in pcs)
@@ -181,7 +183,7 @@ def run(model, rep, tier):
         th = [stmt_key(n) for n in ast.walk(f.node) if isinstance(n, ast.Assign) and src(n.targets[0]) == "tsig_ctx"]
         rep.check("tsig_ctx = r.tsig_ctx" in th, "R-13.3", qn, where(f, f.node), "the TSIG context is threaded from message to message", "multi-message TSIG context is not carried forward", stmt="tsig-thread")
     # the wire reader keeps every RR after the first SOA of a transfer message in its own RRset (order matters to the state machine)
-    gs = model.func("dns.message._WireReader._get_section")
+    gs = pat.canon_func(model.func("dns.message._WireReader._get_section"), roles.GET_SECTION)
     fu = [n for n in ast.walk(gs.node) if isinstance(n, ast.Assign) and any(src(t) == "force_unique" for t in n.targets)]
     loop = [n for n in gs.node.body if isinstance(n, ast.For)]
     okk = len(fu) == 2 and len(loop) == 1
